@@ -69,7 +69,7 @@ def run(ctx):
     local = sorted(n for n in seen if n in F.fns and F.fns[n].crate == "rws" and F.fns[n].kind != "Promoted")
 
     # ---- R1 full delivery
-    r1 = chk.rule("R1-full-delivery", "response bytes are sent to the transport with Write::write_all (a bare Write::write whose count is not re-submitted is a short-write truncation)", floor=6)
+    r1 = chk.rule("R1-full-delivery", "response bytes are sent to the transport with Write::write_all (a bare Write::write whose count is not re-submitted is a short-write truncation)", floor=2)
     cnt = {}
     for n in local:
         fn = F.fns[n]
@@ -127,7 +127,7 @@ def run(ctx):
         r2.violate("C05|R2|no-header-built", "the request parser builds no Header aggregate (anchor missing)")
 
     # ---- R3 status line pairs + IANA
-    r3 = chk.rule("R3-status-line-pairs", "every assignment of Response.status_code is followed by the reason_phrase of the same status entry; Response aggregates take both from one entry", floor=30)
+    r3 = chk.rule("R3-status-line-pairs", "every assignment of Response.status_code is followed by the reason_phrase of the same status entry; Response aggregates take both from one entry", floor=10)
     r3b = chk.rule("R3b-status-table-registered", "every entry of the status table has a registered code, the registered phrase for it, and a field name carrying the same code", floor=55)
     tbl = ctx.table("iana_status")["codes"]
     entries = (F.consts.get("response::STATUS_CODE_REASON_PHRASE") or {}).get("v", {}).get("fields", {})
